@@ -24,8 +24,8 @@ def main(argv):
         mod = importlib.import_module("qv.props." + pid.lower())
         if hasattr(mod, "replay"):
             return main_run(pid, tier, seed, lambda ctx: mod.replay(ctx, rep), no_evidence=True)
-        print(json.dumps(rep, indent=1))
-        return 0
+        from .ctx import generic_replay
+        return main_run(pid, tier, seed, lambda ctx: generic_replay(ctx, rep), no_evidence=True)
     mod = importlib.import_module("qv.props." + pid.lower())
     return main_run(pid, tier, seed, mod.run)
 
